@@ -312,6 +312,107 @@ pub fn combined_contract(s: &mut dyn Src, r: &mut Report) {
    }
 }
 
+// ---- forwarding impls of rel_index_boilerplate.rs against an ARBITRARY implementor (Kani, loop-free) ------------
+/// records which trait method was called with which arguments; answers from symbolic fields
+pub struct Spy {
+   pub id: u8,
+   pub last: (u8, u8, u8),
+   pub ret: bool,
+   pub len: usize,
+   pub empty: bool,
+}
+impl RelIndexWrite for Spy {
+   type Key = u8;
+   type Value = u8;
+   fn index_insert(&mut self, key: u8, value: u8) { self.last = (1, key, value); }
+}
+impl RelFullIndexWrite for Spy {
+   type Key = u8;
+   type Value = u8;
+   fn insert_if_not_present(&mut self, key: &u8, v: u8) -> bool {
+      self.last = (2, *key, v);
+      self.ret
+   }
+}
+impl RelIndexMerge for Spy {
+   fn move_index_contents(from: &mut Self, to: &mut Self) {
+      from.last = (3, from.id, to.id);
+      to.last = (3, from.id, to.id);
+   }
+   fn merge_delta_to_total_new_to_delta(new: &mut Self, delta: &mut Self, total: &mut Self) {
+      new.last = (4, delta.id, total.id);
+      delta.last = (4, new.id, total.id);
+      total.last = (4, new.id, delta.id);
+   }
+   fn init(new: &mut Self, delta: &mut Self, total: &mut Self) {
+      new.last = (5, delta.id, total.id);
+      delta.last = (5, new.id, total.id);
+      total.last = (5, new.id, delta.id);
+   }
+}
+impl<'a> RelIndexRead<'a> for Spy {
+   type Key = u8;
+   type Value = u8;
+   type IteratorType = std::iter::Once<u8>;
+   fn index_get(&'a self, key: &u8) -> Option<Self::IteratorType> { if *key == 0 { None } else { Some(std::iter::once(*key ^ self.id)) } }
+   fn len_estimate(&'a self) -> usize { self.len }
+   fn is_empty(&'a self) -> bool { self.empty }
+}
+impl<'a> RelIndexReadAll<'a> for Spy {
+   type Key = u8;
+   type Value = u8;
+   type ValueIteratorType = std::iter::Once<u8>;
+   type AllIteratorType = std::iter::Once<(u8, std::iter::Once<u8>)>;
+   fn iter_all(&'a self) -> Self::AllIteratorType { std::iter::once((self.id, std::iter::once(self.id ^ 0x5a))) }
+}
+impl<'a> RelFullIndexRead<'a> for Spy {
+   type Key = u8;
+   fn contains_key(&'a self, key: &u8) -> bool { *key == self.id }
+}
+fn spy(s: &mut dyn Src, id: u8) -> Spy {
+   let r = s.byte();
+   let e = s.byte();
+   s.require(r < 2 && e < 2);
+   Spy { id, last: (0, 0, 0), ret: r == 1, len: s.byte() as usize, empty: e == 1 }
+}
+fn via_write<W: RelIndexWrite<Key = u8, Value = u8>>(mut w: W, k: u8, v: u8) { w.index_insert(k, v) }
+fn via_full_write<W: RelFullIndexWrite<Key = u8, Value = u8>>(mut w: W, k: u8, v: u8) -> bool { w.insert_if_not_present(&k, v) }
+fn via_move<M: RelIndexMerge>(mut a: M, mut b: M) { M::move_index_contents(&mut a, &mut b) }
+fn via_merge<M: RelIndexMerge>(mut a: M, mut b: M, mut c: M) { M::merge_delta_to_total_new_to_delta(&mut a, &mut b, &mut c) }
+fn via_init<M: RelIndexMerge>(mut a: M, mut b: M, mut c: M) { M::init(&mut a, &mut b, &mut c) }
+fn via_get<'a, R: RelIndexRead<'a, Key = u8, Value = u8>>(r: &'a R, k: u8) -> (Option<u8>, usize, bool) {
+   (r.index_get(&k).map(|mut it| it.next().unwrap_or(0)), r.len_estimate(), r.is_empty())
+}
+fn via_all<'a, R: RelIndexReadAll<'a, Key = u8, Value = u8>>(r: &'a R) -> Option<(u8, Option<u8>)> { r.iter_all().next().map(|(k, mut it)| (k, it.next())) }
+fn via_contains<'a, R: RelFullIndexRead<'a, Key = u8>>(r: &'a R, k: u8) -> bool { r.contains_key(&k) }
+
+/// every forwarding impl calls exactly the same method of the wrapped implementor with the same arguments (in the same
+/// order) and returns its answer unchanged
+pub fn forwarders_contract(s: &mut dyn Src, r: &mut Report) {
+   let k = s.byte();
+   let v = s.byte();
+   let mut a = spy(s, 1);
+   let mut b = spy(s, 2);
+   let mut c = spy(s, 3);
+   via_write(&mut a, k, v);
+   chk!(r, "forward_mut_ref_index_insert", a.last == (1, k, v));
+   let ret = via_full_write(&mut b, k, v);
+   chk!(r, "forward_mut_ref_insert_if_not_present", b.last == (2, k, v) && ret == b.ret);
+   via_move(&mut a, &mut b);
+   chk!(r, "forward_mut_ref_move_index_contents_same_argument_order", a.last == (3, 1, 2) && b.last == (3, 1, 2));
+   via_merge(&mut a, &mut b, &mut c);
+   chk!(r, "forward_mut_ref_merge_same_argument_order", a.last == (4, 2, 3) && b.last == (4, 1, 3) && c.last == (4, 1, 2));
+   via_init(&mut a, &mut b, &mut c);
+   chk!(r, "forward_mut_ref_init_same_argument_order", a.last == (5, 2, 3) && b.last == (5, 1, 3) && c.last == (5, 1, 2));
+   let ra = &a;
+   let (g, l, e) = via_get(&ra, k);
+   chk!(r, "forward_ref_index_get", g == (if k == 0 { None } else { Some(k ^ 1) }));
+   chk!(r, "forward_ref_len_estimate", l == a.len);
+   chk!(r, "forward_ref_is_empty", e == a.empty);
+   chk!(r, "forward_ref_iter_all", via_all(&ra) == Some((1, Some(1 ^ 0x5a))));
+   chk!(r, "forward_ref_contains_key", via_contains(&ra, k) == (k == 1));
+}
+
 pub type Runner = fn(&mut dyn Src, &mut Report);
 
 macro_rules! registry {
@@ -344,6 +445,7 @@ macro_rules! registry {
 registry! {
 kani {
    combined_view [4] => |s, r| { combined_contract(s, r) },
+   forwarders [3] => |s, r| { forwarders_contract(s, r) },
 }
 native {
    type1_insert_get_le4 => |s, r| { t1_insert_get::<4>(s, r) },
@@ -353,5 +455,6 @@ native {
    lattice_ops_le3 => |s, r| { lat_ops::<3>(s, r) },
    noindex_ops_le3 => |s, r| { noindex_ops::<3>(s, r) },
    combined_view_native => |s, r| { combined_contract(s, r) },
+   forwarders_native => |s, r| { forwarders_contract(s, r) },
 }
 }
